@@ -185,7 +185,7 @@ func exec(in In) vh.Result {
 	closed = true
 	tr, mm, fm, np := sw.TraceCase(rec, tg, in.NIDs, final)
 	h := []string{"trace", "hist:scorch-disk", fmt.Sprintf("trace:mem_merges=%d", min(mm, 5)), fmt.Sprintf("trace:file_merges=%d", min(fm, 5)), fmt.Sprintf("trace:persists=%d", min(np, 9))}
-	return vh.Result{Term: cf.App("CMulti", cf.List([]cf.T{hist, tr})), Nontrivial: nontrivial && mm+fm > 0, Hist: h}
+	return vh.Result{Term: cf.App("CMulti", cf.List([]cf.T{hist, tr})), Nontrivial: nontrivial && mm+fm > 0, Hist: h, Traces: 1}
 }
 
 func main() {
